@@ -672,7 +672,7 @@ def gen_items(rng, allow_async=True, allow_raise=True, maxrows=12):
     return items, asynchronous
 
 
-def random_walk(rng, d: Driver, nsteps, faults=True, kills=True, auth_variants=True):
+def random_walk(rng, d: Driver, nsteps, faults=True, kills=True, auth_variants=True, pauses=False):
     """Drive `d` with events that are meaningful at the current blocking point (plus always-possible ones)."""
     last_app = None
     for _ in range(nsteps):
@@ -680,7 +680,7 @@ def random_walk(rng, d: Driver, nsteps, faults=True, kills=True, auth_variants=T
         if b in ("done", "unknown"):
             break
         r = rng.random()
-        if faults and r < 0.04:
+        if (faults or pauses) and r < 0.04:
             d.simple(rng.choice(["EvPause", "EvResume", "EvResume"]))
             continue
         if faults and r < 0.05:
@@ -693,6 +693,9 @@ def random_walk(rng, d: Driver, nsteps, faults=True, kills=True, auth_variants=T
             d.kill(rng.choice(["KQ", "KQ", "KC"]), selfkill=False)
             continue
         if d.writer.paused and b == "drain":
+            if kills and rng.random() < 0.3:
+                d.kill(rng.choice(["KQ", "KQ", "KC"]), selfkill=False)
+                continue
             d.simple(rng.choice(["EvResume", "EvResume", "EvSockFail"] if faults else ["EvResume"]))
             continue
         if b == "sleep":
